@@ -633,11 +633,121 @@ fn batch_script(queries: &[Query], hash_seed: u64) -> String {
   s
 }
 
+/// The same history as `batch_script`, cut into runs of 4096 operations (only the first one starts
+/// from a restart), so that no single run meets the per-run wall limit however long it is.
+fn chunked_script(queries: &[Query], hash_seed: u64) -> String {
+  let mut s = String::new();
+  for (i, c) in queries.chunks(4096).enumerate() {
+    s.push_str(&format!("run threads=1 policy=seq sched=0 hash={} reset={}\n", hash_seed, if i == 0 { 1 } else { 0 }));
+    for q in c {
+      s.push_str(&format!("t0 q {}\n", q.key()));
+    }
+    s.push_str("end\n");
+  }
+  s
+}
+
+/// Long-history sub-check, one process per order: the same N seeded queries over all kinds (mostly
+/// distinct arguments, the whole year range) asked in one long-lived process, forwards in process
+/// 0, backwards in process 1, shuffled in the others. Nothing is reset in between, so whatever the
+/// library remembers keeps growing: a bounded, ring-shaped or slot-numbered memo that only
+/// misbehaves once it holds tens of thousands of entries is reached here and nowhere else. The
+/// driver compares the answers of the processes query by query (a query late in one history is
+/// early in the other) and confirms a difference by replaying the history prefix (--dump-upto).
+pub fn longrun(args: &[String]) -> i32 {
+  let seed = arg_u64(args, "--seed", 20260926);
+  let index = arg_u64(args, "--index", 0);
+  let n = arg_u64(args, "--n", 200000) as usize;
+  let out = arg(args, "--out");
+  let answers_path = arg(args, "--answers");
+  let watchdog = Duration::from_secs(arg_u64(args, "--watchdog", 30));
+  let dump_upto: Option<u64> = if arg(args, "--dump-upto").is_none() { None } else { Some(arg_u64(args, "--dump-upto", 0)) };
+  let t0 = Instant::now();
+  let hash_seed = mix(mix(seed, 0x6c6f6e67), index) | 1;
+  tyme4rs::tyme::verif::set_hash_seed(hash_seed);
+  install_hooks();
+  reset_library();
+  let leap = Leap::build();
+  // the query list is a function of the seed only
+  let mut rng = Rng::new(mix(seed, 0x6c6f6e6772756e));
+  let kinds: Vec<usize> = (0..KINDS.len()).filter(|k| KINDS[*k].name != "PROVIDER" && KINDS[*k].cost < 2).collect();
+  let mut queries: Vec<Query> = Vec::with_capacity(n);
+  let mut per_family = [0u64; 10];
+  while queries.len() < n {
+    let mut k = *rng.pick(&kinds);
+    if KINDS[k].cost == 1 && rng.chance(1, 2) {
+      k = *rng.pick(&kinds);
+    }
+    let invalid = rng.chance(1, 24);
+    let t = crate::gen::gen_tuple(&mut rng, 4, &leap, invalid);
+    let o = crate::gen::gen_tuple(&mut rng, 4, &leap, false);
+    per_family[KINDS[k].family] += 1;
+    queries.push(Query::new(k, crate::gen::args_for(&mut rng, k, t, o)));
+  }
+  let mut order: Vec<u32> = (0..n as u32).collect();
+  match index {
+    0 => {}
+    1 => order.reverse(),
+    _ => Rng::new(mix(mix(seed, 0x6f72646572), index)).shuffle(&mut order),
+  }
+  if let Some(p) = dump_upto {
+    let upto = (p as usize + 1).min(n);
+    let qs: Vec<Query> = order[..upto].iter().map(|i| queries[*i as usize].clone()).collect();
+    write_out(out, &chunked_script(&qs, hash_seed));
+    return 0;
+  }
+  let mut answers: Vec<(char, u64, u32)> = vec![('-', 0, 0); n];
+  let mut violations: Vec<String> = Vec::new();
+  let mut evaluations = 0u64;
+  let mut refused = 0u64;
+  let mut pos = 0usize;
+  while pos < n {
+    let end = (pos + 4096).min(n);
+    let qs: Vec<Query> = order[pos..end].iter().map(|i| queries[*i as usize].clone()).collect();
+    match batch(&qs, hash_seed, pos == 0, watchdog) {
+      Err((why, done)) => {
+        let upto = pos + (done + 1).min(qs.len());
+        let all: Vec<Query> = order[..upto].iter().map(|i| queries[*i as usize].clone()).collect();
+        violations.push(format!("{{\"obligation\":\"P\",\"key\":\"\",\"position\":{},\"detail\":\"{}\",\"history\":\"{}\"}}", pos + done, esc(&why), esc(&chunked_script(&all, hash_seed))));
+        break;
+      }
+      Ok(ans) => {
+        for (k, (c, d)) in ans.iter().enumerate() {
+          evaluations += 1;
+          if *c == 'R' {
+            refused += 1;
+          }
+          answers[order[pos + k] as usize] = (*c, *d, (pos + k) as u32);
+        }
+      }
+    }
+    pos = end;
+  }
+  if let Some(p) = answers_path {
+    let mut a = String::with_capacity(n * 48);
+    for (i, (c, d, at)) in answers.iter().enumerate() {
+      let _ = write!(a, "{}{:016x} {} {}\n", c, d, at, queries[i].key());
+    }
+    write_out(Some(p), &a);
+  }
+  let fams: Vec<String> = (0..10).map(|f| format!("\"{}\":{}", FAMILIES[f], per_family[f])).collect();
+  let (clen, _, _, _, _) = if violations.is_empty() { let x = lunar_state_hash(); (x.1, x.2, x.3, x.4, false) } else { (0, false, false, false, false) };
+  let mut o = String::new();
+  let _ = write!(o, "{{\"mode\":\"longrun\",\"seed\":{},\"index\":{},\"n\":{},\"evaluations\":{},\"refused\":{},\"month_memo_entries_after\":{},\"queries_per_family\":{{{}}},\"wall_s\":{:.3},\"violations\":[{}]}}\n", seed, index, n, evaluations, refused, clen, fams.join(","), t0.elapsed().as_secs_f64(), violations.join(","));
+  write_out(out, &o);
+  0
+}
+
 pub fn sweep(args: &[String]) -> i32 {
   let seed = arg_u64(args, "--seed", 20260926);
   let index = arg_u64(args, "--index", 0);
   let out = arg(args, "--out");
   let watchdog = Duration::from_secs(arg_u64(args, "--watchdog", 30));
+  // --dump-upto P: do not execute; write the history of this sweep up to and including request
+  // number P as a script (the driver replays it in a fresh process when the short history a
+  // violation record suggests does not show the violation: a bounded or ring-shaped memo only
+  // misbehaves after thousands of earlier requests)
+  let dump_upto: Option<u64> = if arg(args, "--dump-upto").is_none() { None } else { Some(arg_u64(args, "--dump-upto", 0)) };
   let t0 = Instant::now();
   install_hooks();
   reset_library();
@@ -662,7 +772,9 @@ pub fn sweep(args: &[String]) -> i32 {
   let mut sample: Vec<String> = Vec::new();
   let mut hung = false;
   let mut pos = 0usize;
+  let mut flat = 0usize; // requests issued in earlier chunks (valid and invalid ones)
   let mut first_chunk = true;
+  let mut dump: Vec<Query> = Vec::new();
   while pos < order.len() && violations.len() < 8 {
     let end = (pos + 4096).min(order.len());
     // expectation per query: Some(index into valid) or None (must be refused)
@@ -686,11 +798,22 @@ pub fn sweep(args: &[String]) -> i32 {
         }
       }
     }
+    if let Some(p) = dump_upto {
+      let p = p as usize;
+      let take = if p + 1 >= flat + qs.len() { qs.len() } else { p + 1 - flat };
+      dump.extend_from_slice(&qs[..take]);
+      flat += qs.len();
+      pos = end;
+      if flat > p {
+        break;
+      }
+      continue;
+    }
     match batch(&qs, hash_seed, first_chunk, watchdog) {
       Err((why, done)) => {
         hung = why.starts_with("watchdog");
         let upto = (done + 1).min(qs.len());
-        violations.push(format!("{{\"obligation\":\"P\",\"key\":\"\",\"position\":{},\"detail\":\"{}\",\"history\":\"{}\"}}", pos + done, esc(&why), esc(&batch_script(&qs[..upto], hash_seed))));
+        violations.push(format!("{{\"obligation\":\"P\",\"key\":\"\",\"position\":{},\"detail\":\"{}\",\"history\":\"{}\"}}", flat + done, esc(&why), esc(&batch_script(&qs[..upto], hash_seed))));
         break;
       }
       Ok(ans) => {
@@ -708,7 +831,7 @@ pub fn sweep(args: &[String]) -> i32 {
               if (c != 'K' || d != valid[ix as usize].2) && violations.len() < 8 {
                 let got = q.eval();
                 let expected = Query::new(K_LM_NEW, q.args.clone()).eval();
-                violations.push(format!("{{\"obligation\":\"R\",\"key\":\"{}\",\"position\":{},\"ask\":{},\"got_class\":\"{}\",\"got\":\"{}\",\"expected\":\"{}\"}}", esc(&q.key()), pos + k, seen[ix as usize], c, esc(got.text()), esc(expected.text())));
+                violations.push(format!("{{\"obligation\":\"R\",\"key\":\"{}\",\"position\":{},\"ask\":{},\"got_class\":\"{}\",\"got\":\"{}\",\"expected\":\"{}\"}}", esc(&q.key()), flat + k, seen[ix as usize], c, esc(got.text()), esc(expected.text())));
               }
               if sample.len() < 3 {
                 sample.push(format!("\"{} -> {}{:016x}\"", esc(&q.key()), c, d));
@@ -718,7 +841,7 @@ pub fn sweep(args: &[String]) -> i32 {
               invalid_asked += 1;
               if c != 'R' && violations.len() < 8 {
                 let got = q.eval();
-                violations.push(format!("{{\"obligation\":\"I\",\"key\":\"{}\",\"position\":{},\"ask\":0,\"got_class\":\"K\",\"got\":\"{}\",\"expected\":\"refusal\"}}", esc(&q.key()), pos + k, esc(got.text())));
+                violations.push(format!("{{\"obligation\":\"I\",\"key\":\"{}\",\"position\":{},\"ask\":0,\"got_class\":\"K\",\"got\":\"{}\",\"expected\":\"refusal\"}}", esc(&q.key()), flat + k, esc(got.text())));
               }
             }
           }
@@ -726,7 +849,12 @@ pub fn sweep(args: &[String]) -> i32 {
       }
     }
     first_chunk = false;
+    flat += qs.len();
     pos = end;
+  }
+  if dump_upto.is_some() {
+    write_out(out, &chunked_script(&dump, hash_seed));
+    return 0;
   }
   let (clen, p1) = if hung { (0, false) } else { let x = lunar_state_hash(); (x.1, x.2) };
   let mut o = String::new();
